@@ -45,7 +45,7 @@ def expected_cmp(a, b, order, contigs):
 def make_objs(rng, n):
     """Records (typed / untyped) and plain locatables over present/missing/equal/less/greater components."""
     objs = []
-    chroms = ["1", "2", "10", "X", "chr1", "chr2", "chr10"]
+    chroms = ["1", "2", "10", "X", "chr1", "chr2", "chr10", "0", "3", "11", "12", "chr11"]
     for _ in range(n):
         kind = rng.choice(["typed", "typed", "untyped", "loc"])
         chrom = rng.choice(chroms)
@@ -58,7 +58,7 @@ def make_objs(rng, n):
         elif kind == "untyped":
             objs.append(("untyped", SC.untyped_record(tumor, normal or "", chrom, str(start), str(end))))
         else:
-            c = rng.choice([chrom, chrom, None])
+            c = rng.choice([chrom, chrom, None, int(chrom) if chrom.isdigit() else chrom])
             s = rng.choice([start, start, None])
             e = rng.choice([end, end, None]) if s is not None else None
             objs.append(("loc", SC.Loc(c, s, e)))
@@ -286,7 +286,8 @@ def run(ctx):
                 "non-leading component or involve a missing value or mixed typed/untyped; distinct (a,b,order,contigs)")
     rng = ctx.rng("keys")
     objs = make_objs(rng, ctx.scale(40, 140))
-    contig_sets = [[], ["1", "2", "10", "X", "chr1", "chr2", "chr10"], ["10", "2", "1", "X", "chr10", "chr2", "chr1"]]
+    contig_sets = [[], ["1", "2", "10", "X", "chr1", "chr2", "chr10"], ["10", "2", "1", "X", "chr10", "chr2", "chr1"],
+                   SC.LONG + ["0"] + SC.LONG_CHR, ["0"] + SC.LONG_CHR + SC.LONG]
     reqs, meta = [], []
     pairs = [(a, b) for a in objs for b in objs]
     rng.shuffle(pairs)
